@@ -126,7 +126,7 @@ std::string plan_to_json(const Plan& p, bool) {
     { json::array hs; for (auto& h : k.hosts) { json::object o; o["name"] = h.name; o["port"] = h.port; o["n_endpoints"] = h.n_endpoints; o["dead_mask"] = h.dead_mask; hs.push_back(o); } kn["hosts"] = hs; }
     { json::object b; const auto& bk = k.broker;
       b["ack_delay_max"] = bk.ack_delay_max; b["ack_zero_p"] = bk.ack_zero_p; b["ack_err_p"] = bk.ack_err_p; b["ack_props_p"] = bk.ack_props_p;
-      b["short_form_p"] = bk.short_form_p; b["session_loss_p"] = bk.session_loss_p; b["caps_change"] = bk.caps_change;
+      b["short_form_p"] = bk.short_form_p; b["dup_ack_p"] = bk.dup_ack_p; b["session_loss_p"] = bk.session_loss_p; b["caps_change"] = bk.caps_change;
       b["base_caps"] = caps_j(bk.base_caps); b["auth_rounds"] = bk.auth_rounds; b["answer_ping"] = bk.answer_ping;
       b["respect_client_limits"] = bk.respect_client_limits; b["hostile"] = bk.hostile; b["hostile_p"] = bk.hostile_p;
       kn["broker"] = b; }
@@ -162,7 +162,7 @@ bool plan_from_json(const std::string& text, Plan& out, std::string* err) {
         for (auto& e : kn.at("hosts").as_array()) { auto& o = e.as_object(); HostCfg h; h.name = o.at("name").as_string().c_str(); h.port = (int)o.at("port").to_number<int>(); h.n_endpoints = (int)o.at("n_endpoints").to_number<int>(); h.dead_mask = (int)o.at("dead_mask").to_number<int>(); k.hosts.push_back(h); }
         { auto& b = kn.at("broker").as_object(); auto& bk = k.broker;
           bk.ack_delay_max = b.at("ack_delay_max").to_number<int64_t>(); bk.ack_zero_p = b.at("ack_zero_p").to_number<double>(); bk.ack_err_p = b.at("ack_err_p").to_number<double>();
-          bk.ack_props_p = b.at("ack_props_p").to_number<double>(); bk.short_form_p = b.at("short_form_p").to_number<double>(); bk.session_loss_p = b.at("session_loss_p").to_number<double>();
+          bk.ack_props_p = b.at("ack_props_p").to_number<double>(); bk.short_form_p = b.at("short_form_p").to_number<double>(); if (b.contains("dup_ack_p")) bk.dup_ack_p = b.at("dup_ack_p").to_number<double>(); bk.session_loss_p = b.at("session_loss_p").to_number<double>();
           bk.caps_change = b.at("caps_change").as_bool(); bk.base_caps = caps_u(b.at("base_caps").as_object()); bk.auth_rounds = (int)b.at("auth_rounds").to_number<int>();
           bk.answer_ping = b.at("answer_ping").as_bool(); bk.respect_client_limits = b.at("respect_client_limits").as_bool(); bk.hostile = b.at("hostile").as_bool(); bk.hostile_p = b.at("hostile_p").to_number<double>(); }
         { auto& n = kn.at("net").as_object(); auto& nk = k.net;
